@@ -16,7 +16,7 @@
 (* plaintext under Source(stored seed) and the shared error stream, serialisation preserves it.   *)
 EXTENDS Integers, Sequences, FiniteSets, TLC, Pow2, Poly, Limbs, Glwe
 
-HasPt(layout) == layout \notin {"tsk"}
+HasPt(layout) == layout \notin {"tsk", "tgk"}
 \* ---- dependency structure over the runs of one back-end
 \* "really depends on" is only demanded where a coincidence is impossible in practice (< 2^-40): a changed
 \* secret re-randomises every body coefficient (size*b bits each), a changed error seed only the error
@@ -42,6 +42,10 @@ LwePh(ct, s) ==
       col == [j \in 1..ct.size |-> << ct.d[1][j][1] + Dot(j, 1) >>]
   IN << TorusInt(col, ct.b, 1) % Pow2(ct.size * ct.b) >>
 Ph(ct, s) == IF IsLwe(ct) THEN LwePh(ct, s) ELSE PhaseVec(ct, s)
+GalInvR(p, N) == CHOOSE q \in 1..(2 * N - 1) : (p * q) % (2 * N) = 1
+TriIdx(e, c) == CHOOSE ij \in (1..e.rank) \X (1..e.rank) : ij[1] <= ij[2] /\ (ij[1] - 1) * e.rank + (ij[2] - 1) - ((ij[1] - 1) * ij[1]) \div 2 = c - 1
+\* the secret the cells of an object are encrypted under
+ErrSk(e) == IF e.layout = "atk" THEN [x \in 1..e.rank |-> Auto(e.aux.sk[x], GalInvR(e.aux.p, e.n))] ELSE e.aux.sk
 \* expected phase of cell idx (1-based) of the object
 Want(e, idx, ct) ==
   LET K == ct.size * ct.b
@@ -51,6 +55,17 @@ Want(e, idx, ct) ==
        [] e.layout = "lwe" -> << PtVec(aux.pt)[1] >>
        [] e.layout = "ksk" -> LET r == ((idx - 1) \div e.rank) + 1  i == ((idx - 1) % e.rank) + 1  sh == K - r * e.dsize * e.b
                               IN [c \in 1..N |-> (aux.sk_in[i][c] % Pow2(K - sh)) * Pow2(sh)]
+       \* automorphism key for p: the columns of s itself, under the key pi_p^-1(s) (see ErrSk)
+       [] e.layout = "atk" -> LET r == ((idx - 1) \div e.rank) + 1  i == ((idx - 1) % e.rank) + 1  sh == K - r * e.dsize * e.b
+                              IN [c \in 1..N |-> (aux.sk[i][c] % Pow2(K - sh)) * Pow2(sh)]
+       \* tensor key: the packed upper triangle s_i s_j (i <= j)
+       [] e.layout = "tsk" -> LET pairs == (e.rank * (e.rank + 1)) \div 2  r == ((idx - 1) \div pairs) + 1  ij == TriIdx(e, ((idx - 1) % pairs) + 1)
+                                  sh == K - r * e.dsize * e.b  ms == NegacyclicMul(aux.sk[ij[1]], aux.sk[ij[2]])
+                              IN [c \in 1..N |-> (ms[c] % Pow2(K - sh)) * Pow2(sh)]
+       \* GGLWE-to-GGSW key: one GGLWE per secret column i (key-major), whose column j carries s_i s_j
+       [] e.layout = "tgk" -> LET blk == e.dnum * e.rank  i == ((idx - 1) \div blk) + 1  r == (((idx - 1) % blk) \div e.rank) + 1  j == ((idx - 1) % e.rank) + 1
+                                  sh == K - r * e.dsize * e.b  ms == NegacyclicMul(aux.sk[i], aux.sk[j])
+                              IN [c \in 1..N |-> (ms[c] % Pow2(K - sh)) * Pow2(sh)]
        [] e.layout \in {"ggsw", "ggsw_c"} ->
                               LET cols == e.rank + 1  r == ((idx - 1) \div cols) + 1  c0 == ((idx - 1) % cols) + 1  sh == K - r * e.dsize * e.b
                                   ms == IF c0 = 1 THEN aux.spt ELSE NegacyclicMul(aux.spt, aux.sk[c0 - 1])
@@ -66,7 +81,7 @@ DiffErrs(ct) ==
 Errs(e, idx) ==
   IF e.layout = "pk_diff" THEN DiffErrs(e.cells[idx]) ELSE
   LET ct == e.cells[idx]
-      ph == Ph(ct, e.aux.sk)
+      ph == Ph(ct, ErrSk(e))
       w == Want(e, idx, ct)
   IN [c \in 1..Len(ph) |-> CMod(ph[c] - w[c], Pow2(ct.size * ct.b))]
 
@@ -108,11 +123,9 @@ ChiOK(h, nm, B) ==
 \* compressed-GGLWE encryption of those columns (itself validated cell by cell against the standard encryption) -- for the
 \* automorphism key only the masks, its key pi_p^-1(s) not being constructible through the public API; (c) every cell is a
 \* valid gadget encryption of its column under its key (phase within the configured bound), computed here from raw limbs.
-GalInvR(p, N) == CHOOSE q \in 1..(2 * N - 1) : (p * q) % (2 * N) = 1
 WrapCols(e) == CASE e.layout = "tsk_c" -> (e.rank * (e.rank + 1)) \div 2 [] OTHER -> e.rank
 WrapKeys(e) == IF e.layout = "tgk_c" THEN e.rank ELSE 1
 \* plaintext column of cell (key i, column c), 1-based, and the secret the cell is encrypted under
-TriIdx(e, c) == CHOOSE ij \in (1..e.rank) \X (1..e.rank) : ij[1] <= ij[2] /\ (ij[1] - 1) * e.rank + (ij[2] - 1) - ((ij[1] - 1) * ij[1]) \div 2 = c - 1
 WrapPt(e, rec, i, c) ==
   LET sk == rec.aux.sk IN
   CASE e.layout = "ksk_c" -> rec.aux.sk_in[c]
@@ -142,6 +155,16 @@ WrapOK(e, rec) ==
 SeedIdx(e, r, c) ==      \* 0-based draw index of the seed stored at cell (r, c) (0-based), per compressed type
   CASE e.layout = "gglwe_c" -> c * e.dnum + r
     [] OTHER -> r * (e.rank + 1) + c
+\* a decompressed GGSW: every cell (row r, column c0) is a gadget encryption of the scalar (c0 = 1) or of scalar * s_(c0-1)
+\* at row r's scale, within the configured bound -- computed from the raw limbs, whatever the size of the scalar's coefficients
+GgswCellsOK(e, rec) ==
+  LET ea == [x \in DOMAIN e \cup {"aux"} |-> IF x = "aux" THEN rec.aux ELSE e[x]]
+      Bk == (e.bound10 + 9) \div 10
+  IN \A idx \in 1..Len(rec.cells) :
+       LET ct == rec.cells[idx]
+           ph == PhaseVec(ct, rec.aux.sk)
+           w == Want(ea, idx, ct)
+       IN \A x \in 1..e.n : CycDist(ph[x], w[x] % Pow2(ct.size * ct.b), Pow2(ct.size * ct.b)) <= Bk
 C19OK(e, rec) ==
   /\ rec.panic = "" /\ rec.ser_same
   /\ CASE e.layout = "glwe_c" -> /\ Len(rec.stored) = 1 /\ rec.stored[1] = rec.master
@@ -152,6 +175,7 @@ C19OK(e, rec) ==
                                  /\ rec.cells = rec.ref
        [] e.layout \in {"ksk_c", "atk_c", "tsk_c", "tgk_c"} -> WrapOK(e, rec)
        [] OTHER -> LET cols == e.rank + 1 IN
-                   /\ Len(rec.stored) = e.dnum * cols
+                   /\ Len(rec.stored) = e.dnum * cols /\ Len(rec.cells) = e.dnum * cols
+                   /\ GgswCellsOK(e, rec)
                    /\ \A r \in 0..(e.dnum - 1) : \A c \in 0..(cols - 1) : rec.stored[r * cols + c + 1] = rec.drawn[SeedIdx(e, r, c) + 1]
 =============================================================================
